@@ -85,7 +85,9 @@ static void ds_op(const struct cmb_dataset *d, int op, int64_t a, int64_t b)
         case 8: { struct cmb_datasummary s; cmb_datasummary_initialize(&s); (void)cmb_dataset_summarize(d, &s);
                   (void)cmb_datasummary_mean(&s); (void)cmb_datasummary_variance(&s); (void)cmb_datasummary_stddev(&s);
                   (void)cmb_datasummary_skewness(&s); (void)cmb_datasummary_kurtosis(&s); cmb_datasummary_print(&s, devnull, true); cmb_datasummary_terminate(&s); break; }
-        case 9: { struct cmb_dataset *c = cmb_dataset_create(); cmb_dataset_initialize(c); (void)cmb_dataset_copy(c, d); (void)cmb_dataset_median(c); cmb_dataset_destroy(c); break; }
+        case 9: { struct cmb_dataset *c = cmb_dataset_create(); cmb_dataset_initialize(c); (void)cmb_dataset_copy(c, d); (void)cmb_dataset_median(c);
+                  if (a & 1) { for (int i = 0; i < 1 + (int)((uint64_t)b % 5); i++) (void)cmb_dataset_add(c, (double)i); (void)cmb_dataset_median(c); }
+                  cmb_dataset_destroy(c); break; }
         case 10: { /* cmb_dataset_merge() is declared in the header but defined nowhere (link error): not callable */
                    struct cmb_dataset *c = cmb_dataset_create(); cmb_dataset_initialize(c); (void)cmb_dataset_copy(c, d); cmb_dataset_sort(c); cmb_dataset_reset(c); cmb_dataset_destroy(c); break; }
         default: if (n <= 64) cmb_dataset_print(d, devnull); (void)cmb_dataset_min(d); (void)cmb_dataset_max(d); break;
@@ -109,7 +111,17 @@ static void ts_op(int op, int64_t a, int64_t b)
         case 5: { struct cmb_wtdsummary w; cmb_wtdsummary_initialize(&w); (void)cmb_timeseries_summarize(ts, &w);
                   (void)cmb_wtdsummary_mean(&w); (void)cmb_wtdsummary_variance(&w); (void)cmb_wtdsummary_skewness(&w); (void)cmb_wtdsummary_kurtosis(&w);
                   cmb_wtdsummary_print(&w, devnull, true); cmb_wtdsummary_terminate(&w); break; }
-        case 6: { struct cmb_timeseries *c = cmb_timeseries_create(); cmb_timeseries_initialize(c); (void)cmb_timeseries_copy(c, ts); (void)cmb_timeseries_median(c); cmb_timeseries_destroy(c); break; }
+        case 6: { struct cmb_timeseries *c = cmb_timeseries_create(); cmb_timeseries_initialize(c); (void)cmb_timeseries_copy(c, ts); (void)cmb_timeseries_median(c);
+                  if (a & 1) {                                   /* a copy is a time series in its own right: it goes on recording */
+                      const struct cmb_dataset *cd = (const struct cmb_dataset *)c;
+                      double t = c->ta[cd->count - 1];
+                      const int more = 1 + (int)((uint64_t)b % 5);
+                      for (int i = 0; i < more; i++) { t += 0.5; (void)cmb_timeseries_add(c, (double)i, t); }
+                      if (b & 1) (void)cmb_timeseries_finalize(c, t + 1.0);
+                      (void)cmb_timeseries_median(c);
+                      PROBE("util.copy_then_add");
+                  }
+                  cmb_timeseries_destroy(c); break; }
         case 7: if (n > 1) { const unsigned lag = 1 + (unsigned)((uint64_t)a % (n - 1 > 64 ? 64 : n - 1)); cmb_timeseries_ACF(ts, lag, buf); } break;
         case 8: if (n > 2) { const unsigned lag = 1 + (unsigned)((uint64_t)a % (n - 2 > 64 ? 64 : n - 2)); cmb_timeseries_PACF(ts, lag, buf, NULL); } break;
         case 9: if (n <= 64) cmb_timeseries_print(ts, devnull); (void)cmb_timeseries_min(ts); (void)cmb_timeseries_max(ts); break;
